@@ -137,6 +137,9 @@ type Streamer struct {
 	loops  map[*ssa.BasicBlock]*Loop
 	iters  map[*Frame]*Streamer
 	acc    *accCtx
+	// directLoads: for a direct statement obj.buf = append(obj.buf, …) of the
+	// owner, the loads of the accumulator it was read through
+	directLoads map[*ssa.Store][]*ssa.UnOp
 	// accStore recognises the stores into the accumulator field of the writer
 	// object being replayed (objbuf.go)
 	accStore func(*ssa.Store) bool
@@ -336,6 +339,7 @@ func (s *Streamer) stream1(v ssa.Value) []*Piece {
 		if x.Op == token.MUL {
 			// the accumulator of a writer object (objbuf.go)
 			if s.acc != nil && s.acc.isField(x.X) {
+				s.acc.loads = append(s.acc.loads, x)
 				return s.acc.cur
 			}
 			if cell, ok := cellOf(x); ok && cell.Parent() == s.Fn {
